@@ -296,6 +296,9 @@ func runC07RS(c *Ctx, pi *pdataInfo) {
 						okReset = true
 					}
 				})
+				if !okReset && pi.clearResetsGrowth(fn, st, sl, root) {
+					okReset = true // clear(x[oldLen:newLen]) (robust_A4.go)
+				}
 				c.Check(okReset, site, p.Pos(sl.Pos()), "elements in [old len, new len) are reset before use", "the re-slice re-exposes elements beyond the previous length (nil after EnsureCapacity, leftovers aliasing live elements after Remove/RemoveIf) and nothing resets them: CopyTo panics or yields a destination that differs from / aliases its source")
 			})
 		}
@@ -355,51 +358,9 @@ func runC07Cov(c *Ctx, pi *pdataInfo) {
 				continue
 			}
 			dest := fn.Params[1]
-			// instructions that write field f of dest's struct
-			touch := map[string]map[ssa.Instruction]bool{}
-			add := func(field string, in ssa.Instruction) {
-				if touch[field] == nil {
-					touch[field] = map[ssa.Instruction]bool{}
-				}
-				touch[field][in] = true
-			}
-			allInstrs(fn, func(in ssa.Instruction) {
-				switch x := in.(type) {
-				case *ssa.Store:
-					// direct store into dest.orig.F (or whole struct)
-					if pi.origRoot(x.Addr, 0) == ssa.Value(dest) {
-						for _, f := range chainFields(x.Addr, namedOf(origT), 0) {
-							add(f, in)
-						}
-					}
-					if pi.origRoot(x.Addr, 0) == ssa.Value(dest) {
-						if pt, ok := x.Addr.Type().(*types.Pointer); ok && types.Identical(pt.Elem(), origT) {
-							for i := 0; i < st.NumFields(); i++ {
-								add(st.Field(i).Name(), in)
-							}
-						}
-					}
-				case ssa.CallInstruction:
-					cf := staticCalleeFn(x)
-					if cf == nil || !pi.inScope[cf] || len(x.Common().Args) == 0 {
-						return
-					}
-					// a callee handed a pointer into dest's payload below field F works on F
-					for _, a := range x.Common().Args {
-						if _, isPtr := a.Type().(*types.Pointer); isPtr && pi.origRoot(a, 0) == ssa.Value(dest) {
-							for _, f := range chainFields(a, namedOf(origT), 0) {
-								add(f, in)
-							}
-						}
-					}
-					// method of W invoked on dest: fields it touches
-					if recvNamedOfFn(cf) == W && pi.resolveWrapper(x.Common().Args[0], 0) == ssa.Value(dest) {
-						for _, f := range pi.fieldsTouched(cf, namedOf(origT), 0) {
-							add(f, in)
-						}
-					}
-				}
-			})
+			// instructions that write field f of dest's struct (helpers that receive dest are followed: robust_A4.go)
+			touch := pi.covTouches(fn, dest, W, origT, 0)
+			sameCut := cutOfIfEdges(selfGuardEdges(fn))
 			var missing, partial []string
 			nf := 0
 			for i := 0; i < st.NumFields(); i++ {
@@ -413,18 +374,9 @@ func runC07Cov(c *Ctx, pi *pdataInfo) {
 					missing = append(missing, f)
 					continue
 				}
-				// copying an object onto itself: nothing to write on that side of the identity test
-				sg := selfGuardExit(fn)
-				esc := false
-				for _, r := range returnsOf(fn) {
-					if sg != nil && (sg.Block() == r.Block() || sg.Block().Dominates(r.Block())) {
-						continue
-					}
-					e := entryInstr(fn)
-					if e == ssa.Instruction(r) || (!via[e] && canReach(e, r, via)) {
-						esc = true
-					}
-				}
+				// copying an object onto itself: nothing to write on that side of the identity test (the test is taken
+				// by edge, so the early-return form and the negated form around the copy are the same)
+				esc, _ := reachesReturnCut(fn, nil, via, sameCut)
 				if esc {
 					partial = append(partial, f)
 				}
@@ -676,19 +628,18 @@ func runC07Move(c *Ctx, pi *pdataInfo) {
 			for _, z := range zeroSrc {
 				viaZ[z] = true
 			}
-			esc, ret := reachesReturnWithout(fn, nil, viaZ)
-			if esc {
-				// allowed: early return under `src.orig == dest.orig`
-				same := false
-				for _, g := range guardsOf(ret.Block()) {
-					op, x, y, ok := cmpOf(g)
-					if ok && op == token.EQL && pi.isOrigPtr(x, src, dest) && pi.isOrigPtr(y, src, dest) {
-						same = true
-					}
+			// allowed: the paths on which `src.orig == dest.orig` holds – taken by edge, so that the early return, the
+			// negated condition around the move and a `case src.orig == dest.orig: return` are one and the same
+			sameEdge := func(b *ssa.BasicBlock, succ int) bool {
+				g, ok := edgeGuardOf(b, succ)
+				if !ok {
+					return false
 				}
-				if !same {
-					okOrd = false
-				}
+				op, x, y, ok := cmpOf(g)
+				return ok && op == token.EQL && pi.isOrigPtr(x, src, dest) && pi.isOrigPtr(y, src, dest)
+			}
+			if esc, _ := reachesReturnCut(fn, nil, viaZ, sameEdge); esc {
+				okOrd = false
 			}
 			c.Check(okOrd, name, p.Pos(fn.Pos()), "destination filled, then source zeroed on every path", "a path leaves the source non-empty after the move (or zeroes it before the content was transferred)")
 		}
